@@ -96,6 +96,9 @@ Classes(c) == IF c.gc.k = 0 THEN {"tiny", "gen", "corpus"}
 (* deterministic process started twice: only time, process id and uninitialised storage differ.    *)
 DiffAxes(c1, c2) == {a \in Axes : c1[a] # c2[a]} \cup (IF c1.aslr = "on" \/ c2.aslr = "on" THEN {"aslr"} ELSE {})
 Dist(c)          == Cardinality({a \in Axes : c[a] # Baseline[a]})
+(* the two runs are the same process image started twice: same command line, environment and       *)
+(* directory, no randomisation.  Everything that depends on addresses only is equal in such runs.   *)
+SameImage(c1, c2) == DiffAxes(c1, c2) \subseteq {"rep"}
 
 (* the order in which observations are fed to the monitor: the baseline first, then by distance *)
 Export == /\ Complete
@@ -125,4 +128,6 @@ BaselineValid         == Valid(Baseline) /\ DiffAxes(Baseline, Baseline) = {}
 DiffSound             == Complete => /\ DiffAxes(cfg, cfg) = (IF cfg.aslr = "on" THEN {"aslr"} ELSE {})
                                      /\ DiffAxes(cfg, Baseline) = DiffAxes(Baseline, cfg)
                                      /\ (Dist(cfg) = 0) = (cfg = Baseline)
+                                     /\ SameImage(cfg, cfg) = (cfg.aslr = "off")
+                                     /\ (SameImage(cfg, Baseline) => Dist(cfg) <= 1)
 =============================================================================
